@@ -378,6 +378,17 @@ Good(T, es, m, k) ==
         /\ (before.rest = NoPos) = (after.rest = NoPos)
         /\ before.rest # NoPos => Suffix(ApplyEdits(T, es), after.rest) = Suffix(T, before.rest)
 
+(* ... and the comments that stand in front of the first toplevel stay in front of it (the parser gives  *)
+(* the comments before a token to the construct that token starts: a doc comment before `class` is the   *)
+(* class's, and an import inserted between the two takes it away): everything that followed the last     *)
+(* token of the last import - the whole text when there is no import - is the tail of the result.        *)
+IsTail(a, b) == Len(a) <= Len(b) /\ SubSeq(b, Len(b) - Len(a) + 1, Len(b)) = a
+GoodWithComments(T, es, m, k) ==
+  /\ Good(T, es, m, k)
+  /\ LET h    == ParseHeader(T)
+         from == IF h.nImports = 0 THEN <<0, 0>> ELSE h.lastEnd
+     IN IsTail(JoinLines(Suffix(T, from)), JoinLines(ApplyEdits(T, es)))
+
 -----------------------------------------------------------------------------
 (* 4. The shapes of fix the implementation is known to produce (ast_differ.rs: one insertion at  *)
 (* the end of the last existing import - as far as the parser says it extends -, or at the start  *)
